@@ -54,6 +54,16 @@ def negCert (n : Nat) (E : List (Edge Int)) (s : Nat) : Option (List Nat × List
     let p := ((bfs n E s [x] false (n + 1)).path).getD []
     some (p, cyc, negCycleCert E s p cyc)
 
+/-- number of relaxations that improved an already finite distance (non-triviality measure only) -/
+def bfCount (E : List (Edge Int)) : Nat → BFSt → Nat → Nat
+  | 0, _, c => c
+  | k + 1, st, c =>
+    let r := E.foldl (fun (acc : BFSt × Bool × Nat) e =>
+      if relaxable acc.1.dist e then
+        (relax acc.1 e, true, acc.2.2 + (if (look acc.1.dist e.2.1).isSome then 1 else 0))
+      else acc) (st, false, c)
+    if r.2.1 then bfCount E k r.1 r.2.2 else r.2.2
+
 def sortNats (l : List Nat) : List Nat := l.mergeSort (· ≤ ·)
 
 def natOr (v : Val) (dflt : Int) : Option Nat :=
@@ -109,7 +119,7 @@ def subQuery (n : Nat) (E : List (Edge Int)) (cmd : String) (args : List Val) : 
     let mi ← natOr mi Solvor.Gen.Path.dijkstraMaxIter
     let mc ← mc.toOpt? Val.toInt?
     let r := dijkstra n E s T mi mc
-    pure (hReply n E s T mc r)
+    pure (hReply n E s T mc [] r)
   | "astar", [s, T, h, wn, wd, mi, mc] => do
     let s ← s.toNat?
     let T ← T.toNats?
@@ -119,7 +129,7 @@ def subQuery (n : Nat) (E : List (Edge Int)) (cmd : String) (args : List Val) : 
     let mi ← natOr mi Solvor.Gen.Path.astarMaxIter
     let mc ← mc.toOpt? Val.toInt?
     let r := astar n E s T h wn wd mi mc
-    pure (hReply n E s T mc r)
+    pure (hReply n E s T mc h r)
   | "bfs", [s, T, mi] => do
     let s ← s.toNat?
     let T ← T.toOpt? Val.toNats?
@@ -134,7 +144,8 @@ def subQuery (n : Nat) (E : List (Edge Int)) (cmd : String) (args : List Val) : 
     let s ← s.toNat?
     let t ← t.toOpt? Val.toNat?
     let r := bellmanFord n E s t
-    pure (Val.arr [Val.str r.status.name, ofTab r.dist, ofPath r.path, ofOInt r.cost])
+    pure (Val.arr [Val.str r.status.name, ofTab r.dist, ofPath r.path, ofOInt r.cost,
+      Val.int (bfCount E (n - 1) (bfInit n s) 0)])
   | "fw", [d] => do
     let d ← d.toBool?
     let r := floydWarshall n E d
@@ -144,9 +155,9 @@ def subQuery (n : Nat) (E : List (Edge Int)) (cmd : String) (args : List Val) : 
     pure (Val.ofOpt ofTab (dijkstraAll n E s))
   | _, _ => none
 where
-  hReply (n : Nat) (E : List (Edge Int)) (s : Nat) (T : List Nat) (mc : Option Int) (r : HRes Int) : Val :=
+  hReply (n : Nat) (E : List (Edge Int)) (s : Nat) (T : List Nat) (mc : Option Int) (h : List Int) (r : HRes Int) : Val :=
     let cert : Val := match r.status, r.path, r.cost with
-      | .OPTIMAL, some p, some c => Val.bool (distCert E s T (cappedPot n r.g c) p c)
+      | .OPTIMAL, some p, some c => Val.bool (distCert E s T (astarPot n r.g h c) p c)
       | .FEASIBLE, some p, some c => Val.bool (pathOK E s T p c)
       | .INFEASIBLE, _, _ => if mc.isNone then Val.bool (unreachCert E s T r.closed) else Val.null
       | _, _, _ => Val.null
